@@ -6,7 +6,8 @@ import re
 
 from sa.core import Ob
 from sa.pm import AnalysisError, norm, body_nodes
-from sa import gi, df, ru
+from sa import gi, df, ru, sym
+from sa.pm import Undecided
 from sa.gi import IntSet, FinSet, iv, GuardWalker, SymbolicAtomizer, FiniteAtomizer, reach_sets
 from sa.cfg import stmt_paths, struct_dominates
 
@@ -17,326 +18,247 @@ PARSE = "pycoin/networks/ParseAPI.py"
 U, E = IntSet.all(), IntSet.empty()
 
 
+_REF = None
+
+
+def _ref():
+    global _REF
+    if _REF is None:
+        import os
+        _REF = ast.parse(open(os.path.join(os.path.dirname(os.path.dirname(os.path.abspath(__file__))), "spec", "ref_codecs.py")).read())
+    return _REF
+
+
 # ------------------------------------------------------------------ C10.1
 def c10_1(ctx):
     f = ctx.func(SEC, "sec_to_public_pair")
     secp, genp, strictp = f.params()[:3]
     it = ctx.interp
-    from sa.interp import Frame
+    from sa.interp import Frame, Unknown
     mv = it.module(f.module.name)
     B = 32
     lens = {"c": 1 + B, "u": 1 + 2 * B, "o": 10, "e": 0, "u+1": 2 + 2 * B, "c-1": B}
     domain = [(p, k) for p in range(256) for k in lens]
     defs = df.single_defs(f.node)
+    bc = {n for n, d in defs.items() if ".p().bit_length()" in norm(d)}      # the coordinate size in bytes
 
     def evalf(expr, v):
         p, k = v
         sec = (bytes([p]) + b"\0" * (lens[k] - 1)) if lens[k] else b""
-        env = {secp: sec, "byte_count": B}
-        for nm in ("sec0",):
-            if nm in defs:
-                env[nm] = it.eval(defs[nm], Frame(mv, None, dict(env)))
+        env = {secp: sec}
+        for n in bc:
+            env[n] = B
         val = it.eval(expr, Frame(mv, None, env))
-        from sa.interp import Unknown
         if isinstance(val, Unknown):
             raise ValueError("unknown")
         return bool(val)
-    fa = FiniteAtomizer(domain, evalf)
-    w = GuardWalker(fa)
-    exits = w.run(f.node.body)
+    leaf = sym.finite_leaf(domain, evalf)
+    w = sym.walk(ctx, f, leaf, keep=bc, feasible=lambda r: True)
+    exits = w.exits
     rets = [e for e in exits if e.kind == "return"]
     if not rets:
         raise AnalysisError("sec_to_public_pair: no returning exit")
-    strict_atom = strictp
-    acc = fa.empty()
-    lenient = fa.empty()
-    for e in rets:
-        acc = acc | gi.sat_set(e.cond, fa.univ(), fa.empty(), assume={strict_atom: True})
-        lenient = lenient | gi.sat_set(e.cond, fa.univ(), fa.empty(), assume={strict_atom: False})
+    strict_atom = "truthy(%s)" % strictp
     ops = set()
     for e in exits:
-        ops |= set(gi.f_opaques(e.cond))
+        ops |= set(gi.f_opaques(e.cond)) if e.cond not in (True, False) else set()
     if strict_atom not in ops:
-        raise AnalysisError("sec_to_public_pair: the `%s` flag is not a recognisable guard atom (%s)" % (strictp, sorted(ops)))
+        raise Undecided("sec_to_public_pair: the `%s` flag is not a recognisable guard atom (%s)" % (strictp, sorted(ops)[:6]))
+    foreign = [o for o in ops if o != strict_atom and genp not in o]
+    if foreign:
+        raise Undecided("sec_to_public_pair: guards %s are not decided by (prefix byte, length)" % foreign[:3])
+    fr = sym.exits_formula(w, lambda e: e.kind == "return")
+    acc = sym.may_set(fr, leaf.univ, leaf.empty, assume={strict_atom: True})
+    lenient = sym.may_set(fr, leaf.univ, leaf.empty, assume={strict_atom: False})
     want = {(4, "u"), (2, "c"), (3, "c")}
-    ctx.check(acc.m == want, "strict-decision-table", ctx.where(f),
-              "sec_to_public_pair(strict=True) accepts (prefix byte, length class) %s; the unique encodings are exactly %s"
-              % (sorted(acc.m)[:12], sorted(want)),
-              sample={"function": f.qualname, "domain": "256 prefix bytes x %d length classes" % len(lens), "strict_accepts": sorted(acc.m),
-                      "lenient_accepts": sorted(lenient.m)[:20], "cells": fa.evaluated})
+    ctx.check(set(acc.m) == want, "strict-decision-table", ctx.where(f),
+              "sec_to_public_pair(strict=True) accepts (prefix byte, length class) %s; the unique encodings are exactly %s" % (sorted(acc.m)[:12], sorted(want)),
+              sample={"function": f.qualname, "domain": "256 prefix bytes x %d length classes" % len(lens), "strict_accepts": sorted(acc.m), "lenient_accepts": sorted(lenient.m)[:20], "atoms": len(leaf.cache)})
     ctx.note("lenient (consensus) row: %d cells accepted" % len(lenient.m))
-    # every failing cell raises EncodingError (no fall-through / None)
     other = [e for e in exits if e.kind not in ("return", "raise")]
     ctx.check(not other, "sec-fails-by-raising", ctx.where(f), "sec_to_public_pair has an exit that neither returns a point nor raises")
-    bad_r = [e for e in exits if e.kind == "raise" and not ru.is_raise_of("EncodingError")(e) and e.value is not None]
+    bad_r = [e for e in exits if e.kind == "raise" and not isinstance(e.node, ast.Assert) and not ru.is_raise_of("EncodingError")(e)]
     ctx.check(not bad_r, "sec-error-type", ctx.where(f), "sec_to_public_pair raises something other than EncodingError")
     # coordinates compared with the field prime before a point is returned
-    const = ru.const_resolver(ctx, f, {"%s.p()" % genp})
-    for coord in ("x", "y"):
-        uses = [e for e in rets if coord in df.names_in(df.expand(e.value, {}))] if coord == "y" else rets
-        if not uses:
-            ctx.bad("coordinate-%s-used" % coord, ctx.where(f), "no returning exit uses %s" % coord)
-            continue
-        w2 = GuardWalker(SymbolicAtomizer(ru.subject({coord}), const))
-        ex2 = w2.run(f.node.body)
-        for e in ex2:
-            if e.kind != "return":
+    subjects = []
+    for e in rets:
+        v = e.value
+        if isinstance(v, ast.Call) and norm(v.func) == "cast" and len(v.args) == 2:
+            v = v.args[1]
+        if isinstance(v, ast.Tuple) and len(v.elts) == 2:
+            subjects += [("x", norm(v.elts[0]), e), ("y", norm(v.elts[1]), e)]
+        else:
+            cs = [c for c in ast.walk(v) if isinstance(c, ast.Call) and norm(c.func).endswith(".points_for_x") and c.args]
+            if not cs:
+                raise Undecided("sec_to_public_pair returns `%s`: neither a coordinate pair nor points_for_x(x)" % norm(v)[:60])
+            subjects.append(("x", norm(cs[0].args[0]), e))
+    for coord, text, e0 in subjects:
+        w2 = sym.int_walk(ctx, f, {text}, {"%s.p()" % genp}, keep=bc)
+        for e in w2.exits:
+            if e.kind != "return" or e.node is not e0.node:
                 continue
-            if coord == "y" and "y" not in df.names_in(e.value):
-                continue
-            s = gi.sat_set(e.cond, U, E, assume={genp: True})
+            s = sym.may_set(e.cond, U, E, assume={"truthy(%s)" % genp: True})
             want_s = iv(None, ("s", -1))
             ctx.check(s.issubset(want_s), "coordinate-below-p:%s:%s" % (coord, norm(e.value)[:30]), ctx.where(f, e.node),
-                      "sec_to_public_pair returns `%s` for %s in %s: a coordinate >= p is accepted, so one point has several encodings (and addresses)"
-                      % (norm(e.value)[:60], coord, s.fmt("p")),
+                      "sec_to_public_pair returns `%s` for %s = `%s` in %s: a coordinate >= p is accepted, so one point has several encodings (and addresses)"
+                      % (norm(e.value)[:60], coord, text[:50], s.fmt("p")), what="coordinate-below-p:%s:%d" % (coord, len(text)),
                       sample={"exit": norm(e.value)[:60], "coordinate": coord, "accepted": s.fmt("p")})
-    # byte_count derived from the field size
-    bc = defs.get("byte_count")
-    ctx.check(bc is not None and "%s.p().bit_length()" % genp in norm(bc), "byte-count", ctx.where(f), "byte_count is not derived from generator.p().bit_length()")
+    ctx.check(bool(bc), "byte-count", ctx.where(f), "the coordinate size is not derived from generator.p().bit_length()")
     # Key.from_sec uses the strict default
     g = ctx.func(KEY, "Key.from_sec")
-    cs = [c for c in df.calls_in(g.node) if df.last_attr(c) == "sec_to_public_pair"]
-    ok = len(cs) == 1 and not any(k.arg == "strict" for k in cs[0].keywords) and len(cs[0].args) <= 2
+    wg = sym.walk(ctx, g)
+    cs = [e.raw for e in sym.calls_matching(wg, "sec_to_public_pair")]
     a = f.node.args
     dflt = dict(zip([x.arg for x in a.args][len(a.args) - len(a.defaults):], a.defaults))
-    ok = ok and isinstance(dflt.get(strictp), ast.Constant) and dflt[strictp].value is True
+    strict_default = isinstance(dflt.get(strictp), ast.Constant) and dflt[strictp].value is True
+    ok = len(cs) >= 1
+    for c in cs:
+        kw = [k for k in c.keywords if k.arg == strictp]
+        if kw:
+            ok = ok and isinstance(kw[0].value, ast.Constant) and kw[0].value.value is True
+        elif len(c.args) >= 3:
+            ok = ok and isinstance(c.args[2], ast.Constant) and c.args[2].value is True
+        else:
+            ok = ok and strict_default
     ctx.check(ok, "from-sec-strict", ctx.where(g), "Key.from_sec does not decode in strict mode")
-    # encoder: prefix 2 + parity / 4, 32-byte big-endian coordinates
-    h = ctx.func(SEC, "public_pair_to_sec")
-    txt = norm(h.node)
-    ctx.check("bytes([2 + (public_pair[1] & 1)]) + x_str" in txt and "b'\\x04' + x_str + y_str" in txt, "sec-encoder", ctx.where(h),
-              "public_pair_to_sec does not emit 02/03||x (parity of y) or 04||x||y")
+    sym.against_reference(ctx, ctx.func(SEC, "public_pair_to_sec"), _ref(), "public_pair_to_sec", "sec-encoder", lambda t: t.startswith("public_pair["))
 
 
 # ------------------------------------------------------------------ C10.2
 def c10_2(ctx):
     f = ctx.func(KEY, "Key.__init__")
-    const = ru.const_resolver(ctx, f, {"self._generator.order()"})
-    w = GuardWalker(SymbolicAtomizer(ru.subject({"self._secret_exponent"}), const, truthy_is_nonzero=False))
-    exits = w.run(f.node.body)
-    pred = lambda e: ru.is_raise_of("InvalidSecretExponentError")(e)
-    s = E
-    for e in exits:
-        if pred(e):
-            s = s | gi.sat_set(e.cond, U, E, assume={"self._secret_exponent is not None": True})
+    se = f.params()[1]
+    subj = {"self._secret_exponent", se}
+    w = sym.int_walk(ctx, f, subj, {"self._generator.order()"}, truthy=False)
+    fr = sym.exits_formula(w, ru.is_raise_of("InvalidSecretExponentError"))
+    s, n = sym.decisive_set(fr, U, E)
     want = iv(1, ("s", -1)).complement()
     ctx.check(s == want, "secret-exponent-range", ctx.where(f),
-              "Key.__init__ refuses secret exponents in %s; the property requires exactly %s" % (s.fmt("n"), want.fmt("n")),
-              sample={"subject": "self._secret_exponent", "refused": s.fmt("n")})
-    w = GuardWalker(ru.opaque)
-    exits = w.run(f.node.body)
-    pp = [e for e in exits if ru.is_raise_of("InvalidPublicPairError")(e)]
-    ok = len(pp) == 1
+              "Key.__init__ refuses secret exponents in %s; the property requires exactly %s" % (s.fmt("n"), want.fmt("n")), sample={"subject": "self._secret_exponent", "refused": s.fmt("n")})
+    w = sym.walk(ctx, f)
+    anyraise = sym.exits_formula(w, lambda e: e.kind == "raise")
+    pp = sym.exits_formula(w, ru.is_raise_of("InvalidPublicPairError"))
+    ops = gi.f_opaques(pp) if pp not in (True, False) else []
+    none_in = [o for o in ops if o.startswith("None in") or ("is None" in o and "_public_pair[" in o)]
+    on_curve = [o for o in ops if "contains_point(" in o]
+    ok = bool(none_in) and bool(on_curve)
     if ok:
-        ops = gi.f_opaques(pp[0].cond)
-        ok = any(o.startswith("None in") for o in ops) and any("contains_point(*self._public_pair)" in o for o in ops)
-        # raised when None in pair OR not contains_point
-        ok = ok and gi.f_equiv(gi.f_or(*[("op", o) if o.startswith("None in") else ("not", ("op", o)) for o in ops if o.startswith("None in") or "contains_point" in o]),
-                               _project(pp[0].cond, [o for o in ops if o.startswith("None in") or "contains_point" in o]))
-    ctx.check(ok, "public-pair-validated", ctx.where(f), "Key.__init__ does not raise InvalidPublicPairError exactly when the pair contains None or is off the curve")
-    one = [e for e in exits if e.kind == "raise" and ru.is_raise_of("ValueError")(e)]
-    ok = len(one) >= 1 and any(".count(None) != 1" in o for o in gi.f_opaques(one[0].cond))
+        ok = all(sym.entails(("op", o), anyraise) for o in none_in[:1]) and sym.entails(gi.f_and(*[("not", ("op", o)) for o in none_in] + [("not", ("op", on_curve[0]))]), anyraise)
+    ctx.check(ok, "public-pair-validated", ctx.where(f), "Key.__init__ does not raise InvalidPublicPairError whenever the pair contains None or is off the curve (guards: %s)" % ops[:5])
+    one = [e for e in w.exits if e.kind == "raise" and ru.is_raise_of("ValueError")(e)]
+    pk = f.params()[2]
+    ok = len(one) >= 1 and any(se in o and pk in o for e in one for o in gi.f_opaques(e.cond))
     ctx.check(ok, "exactly-one-of", ctx.where(f), "Key.__init__ does not insist on exactly one of secret_exponent / public_pair")
 
 
-def _project(f, keep):
-    """existentially quantify the opaque atoms not in keep (returns a formula over `keep` as a truth table disjunction)"""
-    import itertools
-    ops = gi.f_opaques(f)
-    rest = [o for o in ops if o not in keep]
-    dom, emp = FinSet({0}, frozenset({0})), FinSet((), frozenset({0}))
-    terms = []
-    for bits in itertools.product((False, True), repeat=len(keep)):
-        a = dict(zip(keep, bits))
-        sat = False
-        for b2 in itertools.product((False, True), repeat=len(rest)):
-            a2 = dict(a)
-            a2.update(zip(rest, b2))
-            if not gi.f_eval(f, a2, dom, emp).is_empty():
-                sat = True
-                break
-        if sat:
-            terms.append(gi.f_and(*[("op", k) if v else ("not", ("op", k)) for k, v in a.items()]))
-    return gi.f_or(*terms)
-
-
 # ------------------------------------------------------------------ C10.3
+def wif_payload(ctx, f):
+    """canonical text of the WIF payload: the decoded base58 blob with len(self._wif_prefix) bytes stripped"""
+    w = sym.walk(ctx, f)
+    cands = set()
+    for e in list(w.effects) + list(w.exits):
+        exprs = [e.call] if getattr(e, "kind", "") == "call" else [getattr(e, "value", None)]
+        for x in exprs:
+            if x is None:
+                continue
+            for n in ast.walk(x):
+                if isinstance(n, ast.Subscript) and isinstance(n.slice, ast.Slice) and n.slice.lower is not None and n.slice.upper is None and n.slice.step is None \
+                        and norm(n.slice.lower) == "len(self._wif_prefix)" and "parse_b58_hashed" in norm(n.value):
+                    cands.add(norm(n))
+    for c in w.tests.values():
+        for n in ast.walk(c):
+            if isinstance(n, ast.Subscript) and isinstance(n.slice, ast.Slice) and n.slice.lower is not None and n.slice.upper is None \
+                    and norm(n.slice.lower) == "len(self._wif_prefix)" and "parse_b58_hashed" in norm(n.value):
+                cands.add(norm(n))
+    return cands
+
+
 def c10_3(ctx):
     f = ctx.func(PARSE, "ParseAPI.wif")
-    body = f.node.body
-    strips = [st for st in body_nodes(f.node) if isinstance(st, ast.Assign) and isinstance(st.value, ast.Subscript)
-              and isinstance(st.value.slice, ast.Slice) and st.value.slice.lower is not None and "len(self._wif_prefix)" in norm(st.value.slice.lower)
-              and st.value.slice.upper is None]
-    if len(strips) != 1:
-        ctx.bad("wif-prefix-strip", ctx.where(f), "ParseAPI.wif: no single statement stripping exactly len(self._wif_prefix) bytes")
+    cands = wif_payload(ctx, f)
+    if len(cands) != 1:
+        ctx.bad("wif-prefix-strip", ctx.where(f), "ParseAPI.wif: the key is not built from the decoded blob with exactly len(self._wif_prefix) bytes stripped (found %s)" % sorted(cands)[:3])
         return
-    strip = strips[0]
-    payload = norm(strip.targets[0])
-    paths = stmt_paths(f.node)
-    # every test of the payload length must come after the strip
-    tests = []
-    for n in body_nodes(f.node):
-        if isinstance(n, ast.Compare) and ("len(%s)" % payload) in norm(n):
-            st = _stmt_of(f.node, n)
-            tests.append((n, st))
-    for n, st in tests:
-        ctx.check(struct_dominates(paths, strip, st), "length-test-after-strip", ctx.where(f, st),
-                  "ParseAPI.wif: `%s` is evaluated before the network prefix (1 or 2 bytes) has been stripped: payload lengths are "
-                  "wrong on networks with a two-byte WIF prefix" % norm(n), what="len-test:%s" % norm(n))
-    # walk the statements after the strip
-    owner_block = None
-    for n in ast.walk(f.node):
-        for name in ("body", "orelse"):
-            blk = getattr(n, name, None)
-            if isinstance(blk, list) and strip in blk:
-                owner_block = blk
-    rest = owner_block[owner_block.index(strip) + 1:]
-    const = ru.const_resolver(ctx, f, set())
-    w = GuardWalker(SymbolicAtomizer(ru.subject({"len(%s)" % payload}), const))
-    w.run(rest)
-    calls = [(st, r) for st, r in w.visits if any(isinstance(c, ast.Call) and norm(c.func).endswith("keys.private") for c in ast.walk(st))]
-    for e in w.exits:
-        if e.kind == "return" and e.value is not None and any(isinstance(c, ast.Call) and norm(c.func).endswith("keys.private") for c in ast.walk(e.value)):
-            calls.append((e.node, e.cond))
+    payload = cands.pop()
+    subj = "len(%s)" % payload
+    w = sym.int_walk(ctx, f, {subj})
+    calls = sym.calls_matching(w, "keys.private")
     if not calls:
-        raise AnalysisError("ParseAPI.wif: call of keys.private not found after the strip")
-    for st, r in calls:
-        s = gi.sat_set(r, U, E)
+        raise AnalysisError("ParseAPI.wif: call of keys.private not found")
+    by_node = {}
+    for e in calls:
+        by_node.setdefault(id(e.raw), []).append(e)
+    for group in by_node.values():
+        e = group[0]
+        r = gi.f_or(*[x.reach for x in group])
+        s = sym.may_set(r, U, E)
         want = iv(32, 33)
-        ctx.check(s == want, "wif-payload-length", ctx.where(f, st),
-                  "ParseAPI.wif builds a key for payload lengths %s; a WIF payload is 32 bytes, or 33 with the compression marker" % s.fmt(),
-                  sample={"subject": "len(%s) after prefix strip" % payload, "accepted": s.fmt()})
-        # marker: with 33 bytes the last byte must have been compared with 01
-        ops = gi.f_opaques(r)
-        mk = [o for o in ops if ("%s[-1" % payload in o or "%s[32" % payload in o) and ("\\x01" in o or " 1" in o)]
-        ctx.check(bool(mk), "wif-marker-checked", ctx.where(f, st), "ParseAPI.wif does not compare the 33rd byte with the compression marker 01 (guards: %s)" % ops,
-                  sample={"guards": ops})
-        # is_compressed <=> 33 bytes
-        kws = [k for c in ast.walk(st) if isinstance(c, ast.Call) and norm(c.func).endswith("keys.private") for k in c.keywords if k.arg == "is_compressed"]
-        okc = False
-        if kws:
-            v = kws[0].value
-            fml = w.env.get(norm(v)) if isinstance(v, ast.Name) else None
-            if fml is None and isinstance(v, ast.Name):
-                d = df.single_defs(f.node).get(v.id)
-                if d is not None:
-                    fml = SymbolicAtomizer(ru.subject({"len(%s)" % payload}), const)(d) if not isinstance(d, ast.BoolOp) else None
-            if fml is not None:
-                okc = gi.sat_set(fml, U, E) == iv(33, 33) or gi.sat_set(gi.f_and(fml, r), U, E) == iv(33, 33)
-        ctx.check(okc, "wif-compressed-flag", ctx.where(f, st), "ParseAPI.wif: is_compressed is not `payload has 33 bytes`")
-    # ValueError from the key constructor is converted to None
-    tries = [n for n in body_nodes(f.node) if isinstance(n, ast.Try) and any(isinstance(c, ast.Call) and norm(c.func).endswith("keys.private") for s in n.body for c in ast.walk(s))]
-    ok = any(h.type is not None and {"ValueError", "InvalidSecretExponentError", "Exception"} & {(df.dotted(x) or "").split(".")[-1] for x in (h.type.elts if isinstance(h.type, ast.Tuple) else [h.type])}
-             for t in tries for h in t.handlers)
-    ctx.check(ok, "wif-range-error-to-none", ctx.where(f), "ParseAPI.wif lets the out-of-range exponent error of the key constructor escape")
-    # writer
-    g = ctx.func(KEY, "Key.wif")
-    txt = norm(g.node)
-    ctx.check("blob = to_bytes_32(secret_exponent)" in txt and "blob += b'\\x01'" in txt and "self._network.wif_for_blob(blob)" in txt, "wif-writer", ctx.where(g),
-              "Key.wif does not write 32-byte exponent + optional 01 marker")
+        ctx.check(s == want, "wif-payload-length", ctx.where(f, e.node),
+                  "ParseAPI.wif builds a key for payload lengths %s (measured after the prefix strip); a WIF payload is 32 bytes, or 33 with the compression marker" % s.fmt(),
+                  sample={"subject": "len(payload after prefix strip)", "accepted": s.fmt()})
+        # with 33 bytes the last byte must have been compared with 01
+        r33 = gi.f_and(r, ("set", iv(33, 33)))
+        ops = gi.f_opaques(r33) if r33 not in (True, False) else []
+        mk = [o for o in ops if payload in o and ("b'\\x01'" in o or "== 1" in o or "1 ==" in o)]
+        ok = False
+        for o in mk:
+            # 33-byte payloads reach the constructor only if the marker comparison holds
+            ok = ok or not _sat(gi.f_and(r33, ("not", ("op", o)))) or not _sat(gi.f_and(r33, ("op", o)))
+        ctx.check(ok, "wif-marker-checked", ctx.where(f, e.node), "ParseAPI.wif does not compare the 33rd byte with the compression marker 01 (guards: %s)" % ops, sample={"guards": ops})
+        yes, no = E, E
+        okc = True
+        for x in group:
+            kws = [k for k in x.call.keywords if k.arg == "is_compressed"]
+            if not kws:
+                okc = False
+                continue
+            fml = w.atomize(kws[0].value, True)
+            yes = yes | sym.may_set(gi.f_and(fml, x.reach), U, E)
+            no = no | sym.may_set(gi.f_and(gi.f_not(fml), x.reach), U, E)
+        okc = okc and yes == iv(33, 33) and no == iv(32, 32)
+        ctx.check(okc, "wif-compressed-flag", ctx.where(f, e.node), "ParseAPI.wif: is_compressed is true for payload lengths %s and false for %s; it must be `payload has 33 bytes`" % (yes.fmt(), no.fmt()))
+        tries = sym.enclosing_tries(f.node, e.node)
+        names = set()
+        for t in tries:
+            names |= sym.handler_names(t)
+        ctx.check(bool(names & {"ValueError", "InvalidSecretExponentError", "Exception", "BaseException"}), "wif-range-error-to-none", ctx.where(f, e.node), "ParseAPI.wif lets the out-of-range exponent error of the key constructor escape")
+    sym.against_reference(ctx, ctx.func(KEY, "Key.wif"), _ref(), "key_wif", "wif-writer", lambda t: False)
 
 
-def _stmt_of(func_node, node):
-    best = None
-    for st in body_nodes(func_node):
-        if isinstance(st, ast.stmt):
-            if any(x is node for x in ast.walk(st)):
-                if best is None or any(x is st for x in ast.walk(best)):
-                    best = st
-    return best
+def _sat(f):
+    import itertools
+    if f in (True, False):
+        return f
+    ops = gi.f_opaques(f)
+    return any(not gi.f_eval(f, dict(zip(ops, bits)), U, E).is_empty() for bits in itertools.product((False, True), repeat=len(ops)))
 
 
 # ------------------------------------------------------------------ C10.4
 def c10_4(ctx):
-    f = ctx.func(DER, "sigdecode_der")
-    flag = f.params()[1]
-    # trailing data of each decoding step must be tested (and raise in strict mode) before it is overwritten
-    pending = {}
-    consumed_ok = True
-    top = f.node.body
-    for st in top:
-        if isinstance(st, ast.Assign) and isinstance(st.targets[0], ast.Tuple) and isinstance(st.value, ast.Call) and len(st.targets[0].elts) == 2:
-            callee = df.last_attr(st.value)
-            restname = norm(st.targets[0].elts[1])
-            argnames = {n.id for a in st.value.args for n in ast.walk(a) if isinstance(n, ast.Name)}
-            for nm in list(pending):
-                if nm in argnames:
-                    del pending[nm]          # consumed by the next decoding step
-            if restname in pending:
-                ctx.bad("trailing-overwritten:%s" % pending[restname][0], ctx.where(f, st),
-                        "sigdecode_der: the bytes left over by %s (`%s`) are overwritten before being tested: trailing bytes after the DER %s are accepted in strict mode"
-                        % (pending[restname][0], restname, "SEQUENCE" if pending[restname][0] == "remove_sequence" else "integers"))
-                consumed_ok = False
-            pending[restname] = (callee, st)
-        elif isinstance(st, ast.If):
-            names = df.names_in(st.test)
-            for nm in list(pending):
-                if nm in names:
-                    w = GuardWalker(ru.opaque)
-                    ex = w.run([st])
-                    rs = [e for e in ex if ru.is_raise_of("UnexpectedDER")(e)]
-                    ok = any(gi.f_equiv(e.cond, gi.f_and(("op", nm), ("not", ("op", flag)))) for e in rs)
-                    ctx.check(ok, "trailing-raises:%s" % pending[nm][0], ctx.where(f, st),
-                              "sigdecode_der: left-over bytes of %s do not raise UnexpectedDER exactly when present and strict" % pending[nm][0],
-                              sample={"step": pending[nm][0], "guard": norm(st.test)})
-                    del pending[nm]
-    for nm, (callee, st) in pending.items():
-        ctx.bad("trailing-untested:%s" % callee, ctx.where(f, st), "sigdecode_der: the bytes left over by %s (`%s`) are never tested" % (callee, nm))
-    ctx.check(consumed_ok, "trailing-order", ctx.where(f), "sigdecode_der: decoding steps overwrite untested remainders")
-    # integers: tag, length inside the buffer, sign handling only in lenient mode
-    g = ctx.func(DER, "remove_integer")
-    w = GuardWalker(ru.opaque)
-    ex = w.run(g.node.body)
-    rs = [e for e in ex if ru.is_raise_of("UnexpectedDER")(e)]
-    conds = [repr(e.cond) for e in rs]
-    ctx.check(any("startswith(b'\\\\x02')" in c for c in conds), "integer-tag", ctx.where(g), "remove_integer does not insist on tag 0x02")
-    ctx.check(any("len(string) < 1 + llen + length" in c for c in conds), "integer-length-in-buffer", ctx.where(g), "remove_integer does not check that the integer fits the buffer")
-    neg = [st for st, r in w.visits if isinstance(st, ast.AugAssign) and norm(st.target) == "v"]
-    ok = len(neg) == 1
-    if ok:
-        r = dict((id(st), r) for st, r in w.visits)[id(neg[0])]
-        ok = any("not" in repr(r) and g.params()[1] in o for o in gi.f_opaques(r))
-    ctx.check(ok, "negative-only-lenient", ctx.where(g), "remove_integer: two's-complement handling is not restricted to the non-OpenSSL mode")
-    # ord() of a possibly empty slice must be dominated by an emptiness guard that raises UnexpectedDER
-    for fn in ("read_length", "remove_integer"):
-        h = ctx.func(DER, fn)
-        paths = stmt_paths(h.node)
-        ords = [c for c in df.calls_in(h.node) if norm(c.func) == "ord" and c.args and isinstance(c.args[0], ast.Subscript)]
-        guards = [n for n in body_nodes(h.node) if isinstance(n, ast.If) and any(isinstance(s, ast.Raise) and (df.exc_name(s) or "").endswith("UnexpectedDER") for s in n.body)
-                  and re.match(r"^((len\(\w+\)|\w+) (== 0|< 1)|not \w+)$", norm(n.test))]
-        for c in ords:
-            st = _stmt_of(h.node, c)
-            ok = any(struct_dominates(paths, gd, st) for gd in guards)
-            ctx.check(ok, "ord-of-empty-slice:%s" % fn, ctx.where(h, st),
-                      "%s: `%s` is reached without a dominating emptiness guard raising UnexpectedDER; on truncated input ord(b'') raises TypeError, "
-                      "which no caller of the decoder handles" % (fn, norm(c)), what="%s:%s" % (fn, norm(c)))
-    # encoder: 00 pad iff top bit set
-    e = ctx.func(DER, "encode_integer")
-    w = GuardWalker(ru.opaque)
-    ex = w.run(e.node.body)
-    rets = {repr(x.cond): norm(x.value) for x in ex if x.kind == "return"}
-    ok = any("<= 127" in c and "not" not in c and "b'\\x00'" not in v for c, v in rets.items()) and any("<= 127" in c and "not" in c and "b'\\x00' + s" in v for c, v in rets.items())
-    ctx.check(ok, "encoder-pad", ctx.where(e), "encode_integer does not add the 00 pad exactly when the top bit is set: %s" % rets)
-    s_ = ctx.func(DER, "sigencode_der")
-    ctx.check("encode_sequence(encode_integer(r), encode_integer(s))" in norm(s_.node), "encoder-order", ctx.where(s_), "sigencode_der does not encode SEQUENCE(r, s)")
-    # callers of the lenient/strict decoder handle exactly the documented errors
-    for rel, fn in (("pycoin/satoshi/checksigops.py", "checksigs"), (KEY, "Key.verify")):
+    ints = lambda t: t in ("length", "llen", "lengthlength", "endseq", "s0", "r", "v") or t.startswith(("len(", "ord("))
+    for fn in ("encode_integer", "encode_sequence", "remove_sequence", "remove_integer", "encode_length", "read_length", "sigencode_der", "sigdecode_der"):
+        sym.against_reference(ctx, ctx.func(DER, fn), _ref(), [fn, fn + "_v2"] if fn == "remove_integer" else fn, "der:%s" % fn, ints, inline=False)
+    # callers of the lenient / strict decoder handle exactly the documented errors
+    for rel, fn, callee in (("pycoin/satoshi/checksigops.py", "checksigs", "parse_and_check_signature_blob"), (KEY, "Key.verify", "sigdecode_der")):
         c = ctx.func(rel, fn)
-        hs = [h for n in body_nodes(c.node) if isinstance(n, ast.Try) for h in n.handlers]
-        names = set()
-        for h in hs:
-            if h.type is not None:
-                names |= {(df.dotted(x) or "").split(".")[-1] for x in (h.type.elts if isinstance(h.type, ast.Tuple) else [h.type])}
-        ctx.check({"UnexpectedDER", "ValueError"} <= names or "Exception" in names, "decoder-errors-handled:%s" % fn, ctx.where(c),
-                  "%s does not handle both UnexpectedDER and ValueError from the DER decoder (handles %s)" % (fn, sorted(names)))
+        w = sym.walk(ctx, c)
+        cs = sym.calls_matching(w, callee)
+        if not cs:
+            raise Undecided("%s does not call %s any more" % (fn, callee))
+        for e in cs:
+            names = set()
+            for t in sym.enclosing_tries(c.node, e.node):
+                names |= sym.handler_names(t)
+            ctx.check({"UnexpectedDER", "ValueError"} <= names or bool(names & {"Exception", "BaseException"}), "decoder-errors-handled:%s" % fn, ctx.where(c, e.node),
+                      "%s does not handle both UnexpectedDER and ValueError from the DER decoder (handles %s)" % (fn, sorted(names)))
 
 
 OBLIGATIONS = [
-    Ob("C10.1", "SEC decoder: strict (prefix, length) decision table; coordinates below p before acceptance", c10_1, floor=8, engines="GI(finite),MK,DF",
+    Ob("C10.1", "SEC decoder: strict (prefix, length) decision table; coordinates below p before acceptance", c10_1, floor=8, engines="SYM,GI(finite),MK",
        breaks_if="02||(x+p); hybrid prefixes 06/07 in strict mode; wrong lengths", exhaustive=True),
-    Ob("C10.2", "Key.__init__: secret exponent accepted exactly on [1, n-1]; public pair validated", c10_2, floor=3, engines="GI"),
-    Ob("C10.3", "WIF: payload length {32,33} measured after the prefix strip, marker 01, flag = 33 bytes", c10_3, floor=5, engines="GI,DF,CFG",
+    Ob("C10.2", "Key.__init__: secret exponent accepted exactly on [1, n-1]; public pair validated", c10_2, floor=3, engines="SYM,GI"),
+    Ob("C10.3", "WIF: payload length {32,33} measured after the prefix strip, marker 01, flag = 33 bytes", c10_3, floor=5, engines="SYM,GI",
        breaks_if="two-byte WIF prefixes (DCR); marker byte != 01; 34-byte payload; exponent 0"),
-    Ob("C10.4", "strict DER: both trailing-byte guards, integer framing, documented error type", c10_4, floor=10, engines="DF,CFG,EX",
+    Ob("C10.4", "DER encoder / strict and lenient decoder equal the reference transcription (canonical forms); callers handle the documented errors", c10_4, floor=10, engines="SYM",
        breaks_if="sig + b'\\x00' in strict mode; truncated 30 / 30 02 02"),
 ]
